@@ -659,6 +659,20 @@ pub fn run_which(ctx: &Ctx, which: Which) -> Report {
         }
         check_zone(l, which, &z, rng, 12, 3, ctx.inner(80) as usize);
     });
+    // wl 6: the real zones of the vendored tzdata tree (posix and right: leap tables, footers, v3 files), judged by M-find
+    if let Ok((_paths, blobs)) = crate::mon::c08::load_corpus(&ctx.corpus) {
+        let nfiles = if ctx.quick() { 120 } else { blobs.len() as u64 };
+        crate::core::run_enum(ctx, &mut rep, 6, nfiles, |l, rng, i| {
+            let k = if ctx.quick() { (i as usize * 7 + ctx.seed as usize) % blobs.len() } else { i as usize };
+            if let Ok(tz) = tz::TimeZone::from_tz_data(&blobs[k]) {
+                let z = ZoneSpec::from_tz(&tz.as_ref());
+                check_zone(l, which, &z, rng, 30, 6, ctx.inner(500) as usize);
+                l.class("iana_zone_file");
+            }
+        });
+    } else if ctx.scale >= 1.0 {
+        rep.inconclusive.push("vendored corpus not readable".into());
+    }
     if which == Which::C17 {
         // wl 5: searches that fail (not a date, ns >= 1e9, range edge, year guard of DST rules): same error from both searches
         run_cases(ctx, &mut rep, 5, ctx.n(2000, 50_000), |l, rng, _| {
